@@ -10,7 +10,7 @@ CHECKS = {
         engine="E1-config-lattice",
         technique="bounded-exhaustive enumeration of (map class x index assignment x parameter alphabet x input lattice) with complex-step / full-matrix-probing oracles",
         text="Every registered feature-map class under every index assignment (coincident indices included where the slots share a domain) and the whole parameter alphabet (densities from below the 1e-10 floor of the semilocal-aware maps to 40), every class pair sharing raw inputs, and every (slmode x normaliser mix) list are enumerated; derivative routines are compared with complex-step derivatives of the value routines for every raw input, and forward/reverse normaliser passes are compared as full Jacobian matrices (transpose clause).",
-        note="Decides the property on the enumerated alphabets (gamma in {0.3,1,2.7}, two scale/center pairs, input lattices inside the admissible domain); trusts numpy complex arithmetic.",
+        note="Statelessness: a value call at other points between two derivative calls must leave the derivative unchanged (maps are evaluated for both spin channels before either is differentiated). Decides the property on the enumerated alphabets (gamma in {0.3,1,2.7}, two scale/center pairs, input lattices inside the admissible domain); trusts numpy complex arithmetic.",
         design="5/C12",
     ),
 }
@@ -34,7 +34,7 @@ CHECKS["C07"] = dict(
     engine="E1-config-lattice",
     technique="edge relations on the nspin edge of the configuration lattice, end to end and layer by layer, on the real integrators/generators/plans",
     text="For every enumerated configuration (full products family x semilocal mode x spin mode, spin mode x evaluator x baseline, spin mode x baseline x mixing; deviations<=1 otherwise) the three spin relations (closed shell, label swap, separable splitting) are evaluated between the nr_rks and nr_uks realisations, for energy, both potential matrices and nelec; the same relations are evaluated at each layer that carries an nspin factor (semilocal plan incl. its potential, exponent functions and their derivatives, NLDF generators for all versions/plans/rho_mult incl. the reverse pass, SDMX generators, native and libxc model evaluators).",
-    note="Tolerance 1e-8 relative (measured <= 1.3e-9 over seeds 0-3, 7 and the thorough lattice: the 1e-16 regularisers of s^2/alpha are not spin-scaling invariant and show in the diffuse tail of the base molecule), 2e-8 for libxc-backed baselines (libxc applies its density threshold per spin), 1e-7 for the not density-weighted 'ONE' baseline (evaluated with the fixed tail mask of C01).",
+    note="Model level: with a cutoff, the two-equal-channel call must zero exactly the points the single-channel call zeroes (density lattice on both sides of rhocut and rhocut/2). Tolerance 1e-8 relative (measured <= 1.3e-9 over seeds 0-3, 7 and the thorough lattice: the 1e-16 regularisers of s^2/alpha are not spin-scaling invariant and show in the diffuse tail of the base molecule), 2e-8 for libxc-backed baselines (libxc applies its density threshold per spin), 1e-7 for the not density-weighted 'ONE' baseline (evaluated with the fixed tail mask of C01).",
     design="5/C07",
 )
 
@@ -42,7 +42,7 @@ CHECKS["C05"] = dict(
     engine="E1-config-lattice",
     technique="complete-basis (full matrix) probing of every forward/backward routine pair of the real C/Python code over enumerated layouts, offsets/strides and thread counts",
     text="For every operator pair of the nonlocal pipeline (angular grid <-> spherical harmonics, radial grid <-> orbital basis for input and output bases, convolution multiply for j/i/ij/k collections, spline projections incl. the l=1 fills, grid interpolation incl. l+1 terms for both interpolator back ends, coefficient transforms for both plans and both coefficient orders, the composed forward/backward convolution, SDMX orbital contraction and shell-to-alpha l=1 contraction) and every enumerated layout, the forward routine is applied to every unit vector of its domain and the backward routine to every unit vector of its codomain; the two full matrices must be transposes entrywise, A(0)=0, additivity, and nothing outside the addressed offset/stride block is written. Large layouts (3 x 5810 and 2 x 3470 point atoms, so that one radial shell holds thousands of points): all unit vectors of the small input space through the forward routine, the backward routine on 34-40 block-indicator / boundary / dense probe vectors.",
-    note="Layouts bounded (natm<=3, lmax<=3, <=8 shells, nalpha<=6); tolerance 64 eps ||A|| sqrt(dim); thread counts 1-3 under libgomp (schedules are C10).",
+    note="SDMX contractions also for point counts that the team does not divide (fewer points than threads; per-thread quotient a multiple of 8 with remainder) and for generally contracted shells with l >= 1; all molecules in generic position. Layouts bounded (natm<=3, lmax<=3, <=8 shells, nalpha<=6); tolerance 64 eps ||A|| sqrt(dim); thread counts 1-3 under libgomp (schedules are C10).",
     design="5/C05",
 )
 
@@ -50,7 +50,7 @@ CHECKS["C10"] = dict(
     engine="E3-vgomp-schedules",
     technique="stateless deviation-bounded schedule exploration (CHESS-style) of the real C/OpenMP code under a controllable GOMP runtime; TSan race candidates promoted to scheduling points",
     text="Every Python-reachable OpenMP entry point of the C back end is closed with a small driver and run on C code compiled from the working tree against vgomp, a GOMP-ABI runtime in which exactly one team member runs at a time: every schedule with at most d deviations from the canonical schedule (region start, barriers, each dynamic chunk hand-out, single, critical, thread exit; d=1 always to completion; in the thorough tier d=2 under a 60 s budget per body, completion reported per body; teams 2 and 3) is executed and its outputs compared bitwise with the team-of-one run, with deadlock and work-sharing invariants checked by the runtime; team sizes 1..16 under five canonical policies incl. end-to-end nr_rks/nr_uks; real libgomp at several thread counts x repetitions; and a separate free-running ThreadSanitizer pass (members start together, chunks handed out fairly, work-share bookkeeping invisible to the detector) whose reports in repository code become extra scheduling points, one before and one after each racing access, explored the same way on the attributed body and on a priority list of bodies that execute the racing code, pruned two-atom grids first (a race is a violation iff some explored schedule changes an output).",
-    note="Synchronisation-granularity interleavings plus racing accesses, sequential consistency; nr_numint.c, pbc_tools.c and GPAW-only/caller-less routines are not driven (the evidence lists every OpenMP region function and whether it was entered).",
+    note="Real-runtime pass also with OMP_THREAD_LIMIT below OMP_NUM_THREADS (team smaller than omp_get_max_threads()); one failure per configuration there (a race surfaces in different bodies from run to run). Fractional-Laplacian callbacks run inside PySCF's own parallel loop and are covered by that pass only (schedules sampled, not enumerated). Synchronisation-granularity interleavings plus racing accesses, sequential consistency; nr_numint.c, pbc_tools.c and GPAW-only/caller-less routines are not driven (the evidence lists every OpenMP region function and whether it was entered).",
     design="5/C10, 3.4, appendix A",
 )
 CHECKS["C14"] = dict(
@@ -126,7 +126,7 @@ CHECKS["C11"] = dict(
     engine="E1-config-lattice",
     technique="enumeration of mappable kernel classes x index subsets/slices x hyper-parameter and control-point sets, real mapping routines vs the Python kernel sum on a lattice of interior, edge and corner points",
     text="For every mappable kernel class (RBF, constant x RBF, subset RBF with list / closed / open / stepped / start-less slices, antisymmetric RBF built by the package's own helper, spin kernel, KernelEvaluator over RBF / additive / polynomial / composite kernels, linear; spline mapping of subset RBF in 1-3 dimensions and of additive RBF, additive rational-quadratic and additive linear-times-RBF kernels of orders 1-3, alone and multiplied by a subset RBF) the evaluator produced by the real constructors / get_mapped_gp_evaluator_* is compared with sum_a k(x, x_a) alpha_a and its gradient: 1e-11 / 2e-8 for the exact evaluators; for spline-mapped models the value and gradient errors at grid densities 4, 8, 16 must shrink (>= 2x per doubling and >= 8x over two doublings for values, >= 1.5x for gradients) and stay below measured bounds at the default density; index layouts of the two factors (ascending, subset index after the additive ones, unsorted, interleaved) and a feature list whose features have different bounds are enumerated. get_k0_for_mapping of each additive kernel is compared with the factor its own evaluation uses, for three length scales.",
-    note="Evaluation inside the feature bounds only; seeded control points; spline thresholds from measurement.",
+    note="Layouts include several four-index spline terms (two-index subset RBF x second-order additive terms; one-index x third-order) and features with different bounds per index. Evaluation inside the feature bounds only; seeded control points; spline thresholds from measurement.",
     design="5/C11",
 )
 
@@ -134,7 +134,7 @@ CHECKS["C17"] = dict(
     engine="E1-config-lattice",
     technique="enumeration of method x density-fitting x feature-family x interpolator x molecule states, every nuclear coordinate decided by Richardson differences of converged SCF energies",
     text="For each state (RKS/UKS incl. an open-shell doublet, density fitting on/off, semilocal GGA and meta-GGA, NLDF versions j / ij / k at both semilocal levels, both onsite interpolators) the SCF is converged to 1e-12 with a synthetic mapped functional, and EVERY component of the analytic gradient with grid response (3 natm components: a complete basis of the force vector) is compared with Richardson-extrapolated central differences of converged SCF energies at displaced geometries to 1e-6 Ha/Bohr (observed 1e-10); the forces must sum to zero to 1e-7 (net torque: quadrature-level bound only, the Lebedev orientations do not rotate with the molecule). Relations that hold exactly for BOTH gradient variants (with and without grid response): exchanging the spin labels of a polarised solution leaves the forces unchanged (1e-8); a closed-shell solution through the unrestricted gradient gives the restricted forces (1e-8); the XC gradient layer functions give the same result when the grid is processed in minimal blocks (1e-9). The gradient without grid response has no sharp value oracle: it must stay within 2e-2 of the full-response gradient on the coarse discretisation (measured <= 6.9e-3) and, in the thorough tier, within 1.5e-3 on a refined discretisation (version k excluded: not converged at affordable settings). SDMX-containing models must raise NotImplementedError.",
-    note="Small molecules and coarse grids (the identity is grid independent when grid response is included); SCF non-convergence is a harness error.",
+    note="Families include several l=1 (vector) feature specs (VI, VIJ2). Small molecules and coarse grids (the identity is grid independent when grid response is included); SCF non-convergence is a harness error.",
     design="5/C17",
 )
 
